@@ -19,4 +19,6 @@ let () =
   register "fm_class" (fun a -> pr_n (M.fm_class (arg a 1) (arg a 0)));
   register "delim_ok" (fun a -> pr_bool (M.delim_ok (arg a 0)));
   register "count_lf" (fun a -> "ok " ^ string_of_int (int_of_nat (M.count_lf (arg a 0))));
-  register "lf_count" (fun a -> pr_n (M.lf_count (arg a 0)))
+  register "lf_count" (fun a -> pr_n (M.lf_count (arg a 0)));
+  register "spec_line_count" (fun a -> pr_n (M.spec_line_count (arg a 0)));
+  register "rest_has_bom" (fun a -> pr_bool (M.rest_has_bom (arg a 0)))
